@@ -100,3 +100,10 @@ package http2
 //@   ensures [C19:settings-wire-image] err == nil ==> written(f.w) == old(written(f.w)) ++ enc24(6 * len(settings)) ++ seq[byte]{4, 0} ++ enc32(0) ++ setBytes(settings, len(settings))
 //@   loop 1 invariant -1 <= rangeindex && rangeindex < len(settings) || (rangeindex == -1 && len(settings) == 0)
 //@   loop 1 invariant f.wbuf == hdrBytes(0, 4, 0, 0) ++ setBytes(settings, rangeindex + 1) && len(setBytes(settings, rangeindex + 1)) == 6 * (rangeindex + 1)
+
+//@ -- the read limit ReadFrame enforces (C19:read-limit) is exactly what the caller configured, capped at 2^24-1
+//@ func (*Framer).SetMaxReadFrameSize :: fr, v
+//@   props C19
+//@   requires fr != nil
+//@   assigns fr.maxReadSize
+//@   ensures [C19:configured-read-limit-taken-as-given] fr.maxReadSize == min(v, 16777215)
